@@ -203,7 +203,7 @@ def run_impl(w, sc):
                     mm[key]
                 except CutNow:
                     res = ["cut"]
-                except (TableError, graphlib.CycleError, KeyError):
+                except Exception:  # noqa
                     pass
                 finally:
                     budget[0] = None
@@ -221,6 +221,8 @@ def run_impl(w, sc):
                     res = ["cycle"]
                 except KeyError:
                     res = ["keyerror"]
+                except Exception as e:  # noqa: anything else the real code raises is an outcome to be compared
+                    res = ["exc", type(e).__name__]
             ck = sorted(set(ckstr(k) for k in mm.keys()))
             ek = sorted(set(ckstr(k) for k in mm.errors.keys()))
             ak = sorted(set(ckstr(k) for k in mm.all.keys()))
